@@ -11,7 +11,8 @@ SPEC = {
     ],
     # thorough tier: coverage-guided campaign over the same generator + oracle (rapid.MakeFuzz)
     "fuzz": [{"name": "FuzzModel", "seconds": 90}],
-    "rule": ("rapid-generated ammo models (1-8 entries: method, RFC 3986 path+query, ordered unique headers, binary/empty/newline- and "
+    "rule": ("every delivered request is, after it was compared, treated as the built-in gun treats it before the ammo is released (req.URL scheme and host pointed at a target, empty Host filled): an entry delivered again must not remember it; "
+             "rapid-generated ammo models (1-8 entries: method, RFC 3986 path+query, ordered unique headers, binary/empty/newline- and "
              "'['-bearing bodies, tags with inner single spaces, runs of several spaces, tabs and special characters - never at the ends -, Host; in-file [Header: value] directives at generated "
              "positions for uri/uripost; one header value in three - directives, the entries' own headers, the defaults below - is rich in brackets "
              "and colons anywhere in it, also at its very ends: `ids[]`, `$.items[0]`, `[1, [2, 3]]`, `a:b::`, free compositions closed by runs of ']' "
